@@ -80,6 +80,7 @@ theorem canon_true_of_noTopRedir (x : Expr) : ∀ k, canon false k x = true → 
   | field e _ => intro k h _; simpa [canon] using h
   | index a i _ => intro k h _; simpa [canon] using h
   | none => intro k h; simp [canon] at h
+  | namedField e _ => intro k h _; simpa [canon] using h
   | getline c t f _ _ _ =>
     intro k h hn
     simp only [noTopRedir, beq_iff_eq] at hn
@@ -324,6 +325,7 @@ theorem render_lparen (x : Expr) : ∀ (pc : Bool) (k : Nat), canon pc k x = tru
   | field e _ => intro pc k _ h; simp [firstTok] at h
   | index a i _ => intro pc k _ h; simp [firstTok] at h
   | none => intro pc k hc; simp [canon] at hc
+  | namedField e _ => intro pc k _ h; simp [firstTok] at h
   | getline c t f ihc _ _ =>
     intro pc k hc h
     obtain ⟨_, hcf⟩ := canon_getline_parts pc k c t f hc
